@@ -197,10 +197,10 @@ def stepProvider (env : Env) (cur : Nat) (recv prov : Option Ticket) : Out :=
 
 def recpBody (env : Env) (recv prov : Option Ticket) : Nat → Out
   -- case ProviderTicket.State == Offered: fallthrough
-  -- case all three Registered: (re-)send our registered ticket. Serialising a nil ticket panics.
+  -- case all three Registered: (re-)send our registered ticket. `SerializeTicket(nil)` is an error.
   | 0 | 1 =>
     match recv with
-    | none => ⟨.panic, prov, []⟩
+    | none => ⟨.err eSend, prov, []⟩
     | some r =>
       if env.sendOk then ⟨.ok sRegistered recv recv, prov, [.send true r true]⟩
       else ⟨.err eSend, prov, [.send true r false]⟩
